@@ -1,13 +1,13 @@
 #!/bin/bash
 # bin/seedall.sh [seed ids...] - run the quick check of its property against every kept seeded change (applies the
-# change to /repo, runs, undoes it) and write seeded/LAST_RUN.md.  Nothing else may use /repo meanwhile.
+# change to /repo, runs, undoes it) and write seeded/LAST_RUN.md.  /repo is not touched (scratch worktree per change).
 cd /verif
 ids=${@:-$(ls seeded | grep -v -E 'RESULTS|LAST_RUN')}
 out=seeded/LAST_RUN.md
 { echo "# Last run of the quick checks against the kept seeded changes"; echo; echo "/repo $(git -C /repo rev-parse --short HEAD), /verif $(git rev-parse --short HEAD), $(date -u +%Y-%m-%dT%H:%MZ)"; echo; echo "| seed | property | result |"; echo "|---|---|---|"; } > $out.tmp
 for id in $ids; do
   prop=${id%%-*}
-  r=$(bin/seedtest.sh /verif/seeded/$id/patch.diff $prop 2>&1 | grep -E "^\[$prop\]|does not|not clean" | head -1)
+  r=$(bin/seedtest2.sh /verif/seeded/$id/patch.diff $prop 2>&1 | grep -E "^\[$prop\]|does not|not clean" | head -1)
   tag=$(echo "$r" | grep -o "replay=[^ ]*" | sed 's#.*seed[0-9]*-##; s#/replay.json##')
   case "$r" in
     *"rc=1 VIOLATION"*) res="caught ($tag)";;
